@@ -51,7 +51,7 @@ theorem frameLoop_spec (Q : Nat → Bool) (mx fuel f : Nat) (hfuel : mx - f ≤ 
 /-- C04 (processing): the claimed frame is accepted exactly when it is allowed. -/
 theorem C04_process_accepts_iff (Q : Nat → Bool) (spf claimed : Nat) (hQ0 : Q 0 = false) :
     frameAccepted Q spf claimed = true ↔ Allowed Q spf claimed := by
-  unfold frameAccepted calcFrameIdx Allowed Gen.Orderer.wrongFrame Gen.Orderer.frameIsZero Gen.Orderer.frameIfZero Gen.Orderer.checkOnlyMaxFrame
+  unfold frameAccepted calcFrameIdx Allowed Gen.Orderer.wrongFrame Gen.Orderer.frameIsZero Gen.Orderer.frameIfZero Gen.Orderer.checkOnlyMaxFrame Gen.Orderer.useClaimedBound
   simp only [if_true, Bool.not_eq_eq_eq_not, Bool.not_true, decide_eq_false_iff_not, ne_eq, Decidable.not_not]
   obtain ⟨h1, h2, h3, h4⟩ := frameLoop_spec Q claimed (claimed - spf) spf (Nat.le_refl _)
   generalize frameLoop Q claimed (claimed - spf) spf = r at *
@@ -85,7 +85,7 @@ theorem C04_build_max (Q : Nat → Bool) (spf : Nat) (hQ0 : Q 0 = false) (hspf :
     Allowed Q spf (calcFrameIdx Q spf 0 false) ∧
     calcFrameIdx Q spf 0 false ≤ max 1 (spf + 100) ∧
     (∀ f, Allowed Q spf f → f ≤ spf + 100 → f ≤ calcFrameIdx Q spf 0 false) := by
-  unfold calcFrameIdx Allowed Gen.Orderer.maxFrameToCheck Gen.Orderer.frameIsZero Gen.Orderer.frameIfZero
+  unfold calcFrameIdx Allowed Gen.Orderer.maxFrameToCheck Gen.Orderer.frameIsZero Gen.Orderer.frameIfZero Gen.Orderer.useClaimedBound
   have hmod : (spf + 100) % 4294967296 = spf + 100 := Nat.mod_eq_of_lt (by omega)
   simp only [Bool.false_eq_true, if_false, hmod]
   obtain ⟨h1, h2, h3, h4⟩ := frameLoop_spec Q (spf + 100) (spf + 100 - spf) spf (Nat.le_refl _)
